@@ -14,7 +14,8 @@ from harness import core, oracles
 ID = "C05"
 RULE = ("kind 'sample': exhaustive for one topology (all 1-2 key subsets of {0,1,2}, sizes 1..3, N 1..3, ALL choices answers, "
         "ALL randrange answer sequences of the maximal needed length) then seeded random (1-4 topologies, sizes 1..6, N 1..12, "
-        "2-6 keys with entries 0..5, dyadic unnormalised weights, random oracle answers); malformed: too few motif sizes "
+        "2-6 keys with entries 0..5, dyadic unnormalised weights, random oracle answers; in about a third of the cases a SECOND "
+        "sample call on the same loader object with other answers); malformed: too few motif sizes "
         "(IndexError), a zero size (ZeroDivisionError), N = 0, ragged keys. kind 'choices': weights/r dyadic, r on and off the "
         "interval boundaries. Compared: the logged choices call (population, weights, k), every randrange call (range and "
         "answer position), the returned sequence incl. Python type tags, acceptance by JointDegreeEmpirical, exception class. "
@@ -115,7 +116,11 @@ def _random_sample(rng, big=False):
     if rng.random() < 0.25:      # concentrate patches on one row: second patch of an already patched row
         j = rng.randrange(N)
         rs = [j if rng.random() < 0.7 else r for r in rs]
-    return mk(keys, weights, sizes, N, draws, rs)
+    c = mk(keys, weights, sizes, N, draws, rs)
+    if rng.random() < 0.35:
+        c["draws2"] = [rng.randrange(len(keys)) for _ in range(N)]
+        c["rs2"] = [rng.randrange(N) for _ in range(sum(sizes))]
+    return c
 
 
 def _random_choices(rng):
@@ -155,6 +160,8 @@ def generate(rng, tier):
         elif k == 2:
             c["N"] = 0
             c["draws"] = []
+            c.pop("draws2", None)
+            c.pop("rs2", None)
         else:
             if len(c["sizes"]) > 1:
                 kk = c["keys"][rng.randrange(len(c["keys"]))]
@@ -188,16 +195,10 @@ class _Script(oracles.Script):
         return [population[i % len(population)] for i in idxs]
 
 
-def _impl_sample(case):
-    from gcmpy.joint_degree.joint_degree_loaders.joint_degree_manual import JointDegreeManual
+def _one_call(loader, case, draws, rs):
     from gcmpy.joint_degree.joint_degree_loaders.joint_degree_empirical import JointDegreeEmpirical
     from gcmpy.names.joint_degree_names import JointDegreeNames
-    jdd = {}
-    for k, w in zip(case["keys"], case["weights"]):
-        jdd[tuple(k)] = float(fr(w))
-    before = list(jdd.items())
-    loader = JointDegreeManual({JointDegreeNames.JDD: jdd, JointDegreeNames.MOTIF_SIZES: list(case["sizes"])})
-    script = _Script([("choices", list(case["draws"]))] + [("randrange", r) for r in case["rs"]], default=_Cap())
+    script = _Script([("choices", list(draws))] + [("randrange", r) for r in rs], default=_Cap())
     with oracles.scripted(script):
         out = loader.sample_jds_from_jdd(case["N"])
     calls = [e for e in script.log if e[0] == "choices"]
@@ -220,7 +221,22 @@ def _impl_sample(case):
     except Exception as e:  # noqa: BLE001
         usable = type(e).__name__
     obs["usable"] = usable
+    return obs
+
+
+def _impl_sample(case):
+    from gcmpy.joint_degree.joint_degree_loaders.joint_degree_manual import JointDegreeManual
+    from gcmpy.names.joint_degree_names import JointDegreeNames
+    jdd = {}
+    for k, w in zip(case["keys"], case["weights"]):
+        jdd[tuple(k)] = float(fr(w))
+    before = list(jdd.items())
+    loader = JointDegreeManual({JointDegreeNames.JDD: jdd, JointDegreeNames.MOTIF_SIZES: list(case["sizes"])})
+    obs = _one_call(loader, case, case["draws"], case["rs"])
     obs["jdd_unchanged"] = list(loader.jdd.items()) == before
+    if "draws2" in case:        # a second call on the SAME loader object with other oracle answers
+        obs["second"] = _one_call(loader, case, case["draws2"], case["rs2"])
+        obs["jdd_unchanged"] = obs["jdd_unchanged"] and list(loader.jdd.items()) == before
     return obs
 
 
@@ -244,7 +260,10 @@ def impl(case):
 def model_calls(case, io):
     if case["kind"] == "choices":
         return [("c05_choices", [case["weights"], case["r"]])]
-    return [("c05_run", [case["keys"], case["weights"], case["sizes"], case["N"], case["draws"], case["rs"]])]
+    calls = [("c05_run", [case["keys"], case["weights"], case["sizes"], case["N"], case["draws"], case["rs"]])]
+    if "draws2" in case:
+        calls.append(("c05_run", [case["keys"], case["weights"], case["sizes"], case["N"], case["draws2"], case["rs2"]]))
+    return calls
 
 
 def model_obs(case, raws):
@@ -253,7 +272,11 @@ def model_obs(case, raws):
         return ["!exc", ERR.get(r[1], str(r[1]))]
     if case["kind"] == "choices":
         return {"index": r[1]}
-    return {"call": r[1], "drawn": r[2], "out": r[3], "log": r[4]}
+    mo = {"call": r[1], "drawn": r[2], "out": r[3], "log": r[4]}
+    if len(raws) > 1 and raws[1][0] != -1:
+        r2 = raws[1]
+        mo["second"] = {"call": r2[1], "drawn": r2[2], "out": r2[3], "log": r2[4]}
+    return mo
 
 
 def compare(case, io, mo):
@@ -263,31 +286,46 @@ def compare(case, io, mo):
         return f"impl {io if core.is_exc(io) else 'returned'} / model {mo if core.is_exc(mo) else 'returned'}"
     if case["kind"] == "choices":
         return None if io["index"] == mo["index"] else f"choices rule: CPython index {io['index']} model {mo['index']}"
+    d = _cmp_one(case, io, mo, "")
+    if d:
+        return d
+    if "second" in io and "second" in mo:
+        d = _cmp_one(case, io["second"], mo["second"], "second call on the same loader: ")
+        if d:
+            return d
+    if not io["jdd_unchanged"]:
+        return "the loader's jdd was modified by sampling"
+    return None
+
+
+def _cmp_one(case, io, mo, pre):
     if io["n_choices_calls"] != 1:
-        return f"{io['n_choices_calls']} choices calls (expected 1)"
+        return pre + f"{io['n_choices_calls']} choices calls (expected 1)"
     pop, wts, k, idxs = io["call"]
     mpop, mw, mN = mo["call"]
     if pop != mpop or [fr(w) for w in wts] != [fr(w) for w in mw] or k != mN:
-        return f"choices asked ({pop},{wts},{k}) model ({mpop},{mw},{mN})"
+        return pre + f"choices asked ({pop},{wts},{k}) model ({mpop},{mw},{mN})"
     if io["out"] != mo["out"]:
-        return f"returned sequence: impl {io['out']} model {mo['out']}"
+        return pre + f"returned sequence: impl {io['out']} model {mo['out']}"
     if [x[2] for x in io["rlog"]] != [row for _, row in mo["log"]]:
-        return f"randrange answers used: impl {io['rlog']} model log {mo['log']}"
+        return pre + f"randrange answers used: impl {io['rlog']} model log {mo['log']}"
     if any(x[0] != 0 or x[1] != case["N"] for x in io["rlog"]):
-        return f"randrange asked for a range other than (0,{case['N']}): {io['rlog']}"
+        return pre + f"randrange asked for a range other than (0,{case['N']}): {io['rlog']}"
     if not all(io["tags"]) or io["out_type"] != "list":
-        return f"type tags: {io['out_type']} of {io['tags']}"
+        return pre + f"type tags: {io['out_type']} of {io['tags']}"
     if io["usable"] != "ok":
-        return f"JointDegreeEmpirical rejects the result: {io['usable']}"
-    if not io["jdd_unchanged"]:
-        return "the loader's jdd was modified by sampling"
+        return pre + f"JointDegreeEmpirical rejects the result: {io['usable']}"
     return None
 
 
 def check_calls(case, io):
     if not is_valid(case) or core.is_exc(io):
         return []
-    return [("c05_check", [case["keys"], case["weights"], case["sizes"], case["N"], io["call"], io["rlog"], io["out"]])]
+    calls = [("c05_check", [case["keys"], case["weights"], case["sizes"], case["N"], io["call"], io["rlog"], io["out"]])]
+    if "second" in io:
+        i2 = io["second"]
+        calls.append(("c05_check", [case["keys"], case["weights"], case["sizes"], case["N"], i2["call"], i2["rlog"], i2["out"]]))
+    return calls
 
 
 def check_verdict(case, io, raws):
@@ -299,15 +337,18 @@ def check_verdict(case, io, raws):
         return f"implementation raised {io[1]} on a valid input"
     if not raws or not isinstance(raws[0], list):
         return "checker produced no verdict"
-    v = raws[0]
-    if v[0] != 1:
-        bad = [CLAUSES[i] for i, b in enumerate(v[1:]) if b != 1]
-        return "c05_check rejected: " + "; ".join(bad)
-    if not all(io["tags"]):
-        j = io["tags"].index(0)
-        return f"entry {j} of the result is not a tuple of ints (unhashable list)"
-    if io["usable"] != "ok":
-        return f"the result is not usable as a joint degree sequence: JointDegreeEmpirical -> {io['usable']}"
+    obs = [("", io, raws[0])]
+    if "second" in io and len(raws) > 1:
+        obs.append(("second call on the same loader: ", io["second"], raws[1]))
+    for pre, o, v in obs:
+        if v[0] != 1:
+            bad = [CLAUSES[i] for i, b in enumerate(v[1:]) if b != 1]
+            return pre + "c05_check rejected: " + "; ".join(bad)
+        if not all(o["tags"]):
+            j = o["tags"].index(0)
+            return pre + f"entry {j} of the result is not a tuple of ints (unhashable list)"
+        if o["usable"] != "ok":
+            return pre + f"the result is not usable as a joint degree sequence: JointDegreeEmpirical -> {o['usable']}"
     return None
 
 
@@ -319,6 +360,13 @@ def nontrivial_key(case, io):
 
 def shrink(case):
     if case["kind"] != "sample":
+        return
+    if "draws2" in case:
+        c = {k: v for k, v in case.items() if k not in ("draws2", "rs2")}
+        yield c
+        c = dict(c)
+        c["draws"], c["rs"] = case["draws2"], case["rs2"]
+        yield c
         return
     N = case["N"]
     if N > 1:
